@@ -85,6 +85,15 @@ def family(kind, k, roots_choice, rng=None):
         n = k + 1
         edges = [(i, (i + 1) % n) for i in range(n)]
         top, bottom = 0, k
+    elif kind == "hub":
+        # a hub (object 0) with k children, referenced by every member of a ring of k objects: when the ring is garbage and
+        # the hub is held, the hub is reached once per ring member — its children must still be traced only O(1) times
+        n = 2 * k + 1
+        edges = [(0, i) for i in range(1, k + 1)]
+        ring = list(range(k + 1, 2 * k + 1))
+        for j, r in enumerate(ring):
+            edges.append((r, ring[(j + 1) % k])); edges.append((r, 0))
+        top, bottom = k + 1, 0
     elif kind == "shared":
         n = k + 1
         for i in range(n):
